@@ -287,12 +287,56 @@ pub fn run(run: &mut Run) {
         None
     };
     let (exn, pts, capped, maxo) = run_configs(run, "C19", &setup, &configs, &extra);
+    // "the reply says which value is now stored": the command layer answers `ok` to every accepted
+    // write, the value is named by the write path underneath (db_ops::set_key_value ->
+    // Response::Set{value}), so that is what two concurrent writers call here.  A writer whose
+    // reply was decided after every other writer's last write to the map (it is the last to take
+    // the lock of the key map) must name the value the key holds at the end.
+    let setup_d = Setup { strategy: "newer", init: vec!["set k 1".into(), "set k 1".into()], session_init: vec![vec!["use-db t tok".to_string()], vec!["use-db t tok".to_string()]], check_replica: false };
+    let menu_d = |t: usize| vec![format!("direct-set k -1 p{}", t), format!("direct-set k {} s{}", base, t), format!("direct-set k {} o{}", base - 1, t), format!("direct-set k 0 z{}", t)];
+    let mut configs_d = vec![];
+    for a in menu_d(0) {
+        for b in menu_d(1) {
+            configs_d.push(Config { linearizable: false, programs: vec![vec![a.clone()], vec![b.clone()]], bound: if quick { 3 } else { 99 }, max_exec: 200_000, budget: Duration::from_secs(if quick { 10 } else { 200 }) });
+        }
+    }
+    let extra_d = move |ops: &[OpRec], fin: &FinalView, _w: &[String]| -> Option<(String, String)> {
+        let sched = super::c02_ilv::LAST_SCHEDULE.with(|l| l.borrow().clone());
+        let cur = fin.get("k").map(|v| v.0.clone());
+        for o in ops {
+            let named = match o.resp.strip_prefix("Set(k,").and_then(|r| r.strip_suffix(')')) {
+                Some(v) => v.to_string(),
+                None => return Some(("write-refused".into(), format!("`{}` -> {}", o.line, o.resp))),
+            };
+            // the key map is the lock a write takes first (its creation site names it in the schedule)
+            let map_site = match sched.iter().find(|p| p.contains(" write ")).and_then(|p| p.rsplit(' ').next()) {
+                Some(s) => s.to_string(),
+                None => return None,
+            };
+            // position of this writer's last acquisition of the key map, and of the others' last write acquisition of it
+            let me = format!("t{} ", o.tid);
+            let mine = sched.iter().rposition(|p| p.starts_with(&me) && p.ends_with(&map_site));
+            let others = sched.iter().rposition(|p| !p.starts_with(&me) && p.contains(" write ") && p.ends_with(&map_site));
+            let decided_last = match (mine, others) {
+                (Some(m), Some(x)) => m > x,
+                (Some(_), None) => true,
+                _ => false,
+            };
+            if decided_last && Some(named.clone()) != cur {
+                return Some(("reply-names-a-value-not-stored".into(), format!("`{}` answered Set({}) after every other write had been applied; the key holds {:?}", o.line, named, cur)));
+            }
+        }
+        None
+    };
+    let (exn_d, pts_d, capped_d, maxo_d) = run_configs(run, "C19", &setup_d, &configs_d, &extra_d);
+    let (exn, pts, capped, maxo) = (exn + exn_d, pts + pts_d, capped + capped_d, maxo.max(maxo_d));
+    run.cov("ilv_direct_write_path_configs", json!(configs_d.len()));
     run.cov_add("ilv_executions", exn);
     run.cov_add("ilv_scheduling_points", pts);
     run.cov_add("states", exn);
     run.cov_add("transitions", pts);
     run.cov_add("traces_validated_against_impl", exn);
-    run.cov("ilv_configs", json!(configs.len()));
+    run.cov("ilv_configs", json!(configs.len() + configs_d.len()));
     run.cov("ilv_configs_capped", json!(capped));
     run.cov("ilv_max_distinct_outcomes_per_config", json!(maxo));
     run.cov("exhaustive", json!(ex && capped == 0));
